@@ -114,6 +114,9 @@ struct Script { std::vector<std::vector<Op>> threads; std::vector<Op> setup; int
 struct Blk { uintptr_t p = 0; size_t req = 0, size = 0; int owner = -1; };
 // C01 quantifies over interleaved histories too: when this harness runs for C01, the block-validity oracles report under C01
 static const char *P01() { return wanted_prop() == "C01" ? "C01" : "C05"; }
+// ... and likewise the content / footprint oracles under C02 and the page-accounting / region oracles under C03
+static const char *P02() { return wanted_prop() == "C02" ? "C02" : "C05"; }
+static const char *P03() { return wanted_prop() == "C03" ? "C03" : "C05"; }
 
 template<bool Aligned, class Mx = VMutex, bool Poison = false>
 struct MtHarness {
@@ -127,7 +130,7 @@ struct MtHarness {
 	Blk boxblk[4];
 	std::string log;
 	MtHarness(Script s, size_t skew_) : sc(std::move(s)), skew(skew_) {}
-	const char *prop() { return P01(); }
+	const char *prop() { const std::string &w = wanted_prop(); return w == "C01" ? "C01" : w == "C02" ? "C02" : w == "C03" ? "C03" : "C05"; }
 	Pool &pool() { return *reinterpret_cast<Pool *>(pool_store); }
 	int nthreads() { return (int)sc.threads.size(); }
 	static unsigned char pat(int owner, uintptr_t a) { return (unsigned char)(0x40 + owner * 37 + (a - (uintptr_t)arena) * 11); }
@@ -157,7 +160,7 @@ struct MtHarness {
 #endif
 	}
 	void fill(const Blk &b) { for(size_t i = 0; i < b.req; i++) ((unsigned char *)b.p)[i] = pat(b.owner, b.p + i); }
-	void verify(const Blk &b, const char *when) { for(size_t i = 0; i < b.req; i++) if(((unsigned char *)b.p)[i] != pat(b.owner, b.p + i)) vs_fail("C05", std::string("mt:content-changed:") + when, "bytes of a live block changed while it was live"); }
+	void verify(const Blk &b, const char *when) { for(size_t i = 0; i < b.req; i++) if(((unsigned char *)b.p)[i] != pat(b.owner, b.p + i)) vs_fail(P02(), std::string("mt:content-changed:") + when, "bytes of a live block changed while it was live"); }
 	void add_live(const Blk &b) {
 #if !VERIF_TSAN
 		live.push_back(b);
@@ -199,7 +202,7 @@ struct MtHarness {
 			if(!p) vs_fail("C05", "mt:null", "realloc returned null although map never fails");
 			if((uintptr_t)p != old.p) check_block((uintptr_t)p, op.size, tag);
 			size_t keep = std::min(old.req, op.size);
-			for(size_t i = 0; i < keep; i++) if(((unsigned char *)p)[i] != pat(old.owner, old.p + i)) vs_fail("C05", "mt:realloc-content", "realloc lost the old contents");
+			for(size_t i = 0; i < keep; i++) if(((unsigned char *)p)[i] != pat(old.owner, old.p + i)) vs_fail(P02(), "mt:realloc-content", "realloc lost the old contents");
 			s = Blk{(uintptr_t)p, op.size, pool().get_size(p), tag};
 			fill(s); add_live(s); break;
 		}
@@ -232,19 +235,19 @@ struct MtHarness {
 		// free everything; the page counter must come back to "slabs only": every large region is returned
 		size_t nlarge = 0; for(auto &b : all) if(b.size > 1024) nlarge++;
 		for(auto &b : all) pool().free((void *)b.p);
-		for(auto &r : W.regions) if(r.len != (Aligned ? 4096u : 8192u)) throw Violation{"C05", "mt:large-region-leaked", "a large region is still mapped after every block was freed"};
+		for(auto &r : W.regions) if(r.len != (Aligned ? 4096u : 8192u)) throw Violation{P03(), "mt:large-region-leaked", "a large region is still mapped after every block was freed"};
 		size_t used_end = pool().numUsedPages();
 		size_t slab_regions = W.regions.size();
-		if(used_end > slab_regions * 17 || used_end + 1 < slab_regions * 12) throw Violation{"C05", "mt:page-counter", "numUsedPages() = " + std::to_string(used_end) + " with " + std::to_string(slab_regions) + " slabs mapped (counter drifted under concurrency)"};
-		if(used_mid < used_end) throw Violation{"C05", "mt:page-counter", "page counter grew while freeing"};
+		if(used_end > slab_regions * 17 || used_end + 1 < slab_regions * 12) throw Violation{P03(), "mt:page-counter", "numUsedPages() = " + std::to_string(used_end) + " with " + std::to_string(slab_regions) + " slabs mapped (counter drifted under concurrency)"};
+		if(used_mid < used_end) throw Violation{P03(), "mt:page-counter", "page counter grew while freeing"};
 		(void)nlarge;
 		// the pool still works: fill a whole slab worth of the largest class plus one, all distinct
 		int maps_before = W.maps; size_t regions_before = W.regions.size();
 		std::vector<uintptr_t> got;
-		for(int i = 0; i < 7; i++) { void *p = pool().allocate(1024); if(!p) throw Violation{"C05", "mt:epilogue-null", "allocation failed in the epilogue"}; for(auto q : got) if(q == (uintptr_t)p) throw Violation{"C05", "mt:epilogue-duplicate", "the epilogue received the same block twice (free list corrupted)"}; got.push_back((uintptr_t)p); memset(p, 0x5a, 1024); }
+		for(int i = 0; i < 7; i++) { void *p = pool().allocate(1024); if(!p) throw Violation{"C05", "mt:epilogue-null", "allocation failed in the epilogue"}; for(auto q : got) if(q == (uintptr_t)p) throw Violation{P02(), "mt:epilogue-duplicate", "the epilogue received the same block twice (free list corrupted)"}; got.push_back((uintptr_t)p); memset(p, 0x5a, 1024); }
 		// 7 objects need at most 3 slabs in total
 		size_t slabs1024 = 0; for(auto &r : W.regions) { (void)r; slabs1024++; }
-		if(W.regions.size() > regions_before + 3) throw Violation{"C05", "mt:epilogue-footprint", "the epilogue mapped more slabs than 7 objects can need (a slab with free objects was lost)"};
+		if(W.regions.size() > regions_before + 3) throw Violation{P02(), "mt:epilogue-footprint", "the epilogue mapped more slabs than 7 objects can need (a slab with free objects was lost)"};
 		for(auto q : got) pool().free((void *)q);
 		log = "maps=" + std::to_string(maps_before) + " unmaps=" + std::to_string(W.unmaps);
 	}
@@ -273,6 +276,22 @@ static std::vector<Instance> instances(const std::string &tier) {
 		if(ticket) v.push_back(sched_instance<MtHarness<true, frg::ticket_spinlock>>(n, o, s, (size_t)0)); else v.push_back(sched_instance<MtHarness<true, frg::simple_spinlock>>(n, o, s, (size_t)0));
 	};
 	int B = th ? 4 : 3;
+	if(wanted_prop() == "C02") {
+		// C02's content and reuse clauses across threads: frees and allocations on one slab, then the sequential epilogue
+		// (a slab with free objects must still be found)
+		int b = th ? 3 : 2;
+		add("H2-last-object", b, mkscript({{A_(0, 1024)}, {A_(0, 1024)}, {F_(100)}}, {A_(0, 1024), A_(1, 1024), A_(2, 1024), F_(2)}));
+		add("H7-full-slab-refill", b, mkscript({{F_(100), A_(0, 1024)}, {F_(101), A_(1, 600)}}, {A_(0, 1024), A_(1, 1024), A_(2, 1024)}));
+		add("H4-realloc-across-classes", b, mkscript({{A_(0, 8), R_(0, 1024), F_(0)}, {A_(0, 1024), F_(0), A_(1, 8), D_(1)}}));
+		return v;
+	}
+	if(wanted_prop() == "C03") {
+		// C03's page accounting and region clauses across threads: large frames against each other and against a new slab
+		int b = th ? 3 : 2;
+		add("H5-large-vs-slab", b, mkscript({{A_(0, 1025), F_(0)}, {A_(0, 1025), F_(0)}, {A_(0, 1024)}}));
+		add("H15-two-large-frees", b, mkscript({{F_(100)}, {F_(101)}}, {A_(0, 1025), A_(1, 4097)}));
+		return v;
+	}
 	if(wanted_prop() == "C01") {
 		// C01 over interleaved histories: the scripts in which blocks of one slab are handed out and taken back concurrently
 		int b = th ? 3 : 2;
@@ -298,6 +317,10 @@ static std::vector<Instance> instances(const std::string &tier) {
 	add("H7-full-slab-refill", B, mkscript({{F_(100), A_(0, 1024)}, {F_(101), A_(1, 600)}}, {A_(0, 1024), A_(1, 1024), A_(2, 1024)}));
 	// H11: a free into a partial slab against two allocations from it (the freed block must not be linked in front of a block that is being handed out)
 	add("H11-free-vs-allocate-same-slab", B, mkscript({{F_(100)}, {A_(0, 1024), A_(1, 1024)}}, {A_(0, 1024), A_(1, 1024), F_(1)}));
+	// H14: a block shrunk in place into a smaller class and released through the sized deallocate, against an allocation from
+	// the same slab (both must be serialised by the slab's own bucket mutex)
+	add("H14-sized-deallocate-after-shrink", B, mkscript({{R_(100, 8), D_(100)}, {A_(0, 1024), F_(0)}}, {A_(0, 1024), A_(1, 1024)}));
+	add("H15-two-large-frees", B, mkscript({{F_(100)}, {F_(101)}}, {A_(0, 1025), A_(1, 4097)}));
 	// H12/H13: the same races under a poisoning policy: a block is poisoned by the thread that frees it and unpoisoned by the
 	// thread that gets it next; the two must not cross
 	{ SchedOptions o; o.bound = B; o.horizon = 4000;
